@@ -54,6 +54,10 @@ try:
         json.dump(meta, open(f"{out}/meta.json", "w"), indent=1)
         # the verdict of the check as it stood when the change arrived is kept (first run only)
         hp = "/verif/seeded/HISTORY.json"
+        import fcntl
+
+        lockf = open("/tmp/seed_history.lock", "w")
+        fcntl.flock(lockf, fcntl.LOCK_EX)
         hist = json.load(open(hp)) if os.path.exists(hp) else {}
         sid = f"{P}-{outn}"
         if sid not in hist:
